@@ -10,12 +10,22 @@ in a dict, so a sequence of requests is stateful exactly the way it is against
 LDAP: what one request stored is what the next one's capacity check lists.
 Only the wire is faked (search / add / modify / delete on a dict).
 
+Beyond C19 (specs/cell/CellSyncCore.tla): `Sync` runs the real
+cellsync.sync_allocations() of one cell (context.GLOBAL.cell / .zk.conn patched
+at class level; one harness/zkfake per cell, so masterapi.update_allocations
+writes the cell's /allocations node and queues its 'allocations' event there);
+`Assign` / `Unassign` are the real assignment.update / assignment.delete.  Every
+projection also carries the rest of the directory record (rank, adjustment, max
+utilisation, assignments), the /allocations document of every synchronised
+cell parsed from the raw node bytes, and the number of queued events.
+
 A history is (table, [(ev, id, r)]):
   table  [(cell, part, cap, limits)]   cap = {cpu, memory, disk} spelled
          quantities (mantissa, suffix); limits = {trait: {cpu, memory, disk}}
-  ev     'Create' | 'Update' | 'Delete'
+  ev     'Create' | 'Update' | 'Delete' | 'Sync' (id = ('', cell), r None)
+         | 'Assign' | 'Unassign' (r = {pattern, priority})
   id     (alloc, cell)                 alloc = 'tenant/name'
-  r      {part, tg, traits, cpu, memory, disk}   (None for Delete)
+  r      {part, tg, traits, cpu, memory, disk [, rank, adj, maxu]}   (None for Delete)
 Quantities are rendered as the strings the spelling says ('100%', '1G',
 '2048m').  Recorded per request: outcome ('ok' | 'invalid' | 'exc') and the
 projection of the directory after it, parsed from the RAW stored attribute
@@ -26,7 +36,7 @@ import re
 
 import mock
 
-from . import core, tlc
+from . import core, tlc, zkfake
 
 core.ensure_repo_on_path()
 
@@ -45,6 +55,7 @@ from treadmill import context  # noqa: E402
 from treadmill import exc  # noqa: E402
 from treadmill.admin import _ldap  # noqa: E402
 from treadmill.api import allocation  # noqa: E402
+from treadmill import cellsync  # noqa: E402
 
 
 class HarnessBug(tlc.MachineryError):
@@ -220,6 +231,7 @@ class World:
         self.cell_alloc = _ldap.CellAllocation(wrapped)
         self.partition = _ldap.Partition(wrapped)
         self.table = table
+        self.zk = {}        # cell -> (ZkStore, ZkFakeClient): every cell has its own ZooKeeper
         for cell, part, cap, limits in table:
             obj = {'cpu': spell(cap['cpu']), 'memory': spell(cap['memory']),
                    'disk': spell(cap['disk']),
@@ -251,11 +263,115 @@ class World:
                 traits=sorted(e.get('trait', [])),
                 cpu=unspell(e.get('cpu', ['0%'])[0]),
                 memory=unspell(e.get('memory', ['0G'])[0]),
-                disk=unspell(e.get('disk', ['0G'])[0])))
-        return dict(res=res)
+                disk=unspell(e.get('disk', ['0G'])[0]),
+                # beyond C19 (CellSyncCore.tla): what else the directory keeps
+                rank=int(e['rank'][0]) if 'rank' in e else -1,
+                adj=[int(e['rank-adjustment'][0])] if 'rank-adjustment' in e else [],
+                maxu=[repr(float(e['max-utilization'][0]))] if 'max-utilization' in e else [],
+                asg=self._raw_assignments(e)))
+        return dict(res=res, docs=self._docs(), events=self._events())
+
+    @staticmethod
+    def _raw_assignments(e):
+        by_opt = {}
+        for k, v in e.items():
+            if ';' in k:
+                attr, opt = k.split(';', 1)
+                by_opt.setdefault(opt, {})[attr] = v[0]
+        out = []
+        for opt in sorted(by_opt):
+            a = by_opt[opt]
+            if set(a) != {'pattern', 'priority'}:
+                raise HarnessBug('unexpected assignment attributes %r' % (a,))
+            out.append([a['pattern'], int(a['priority'])])
+        return sorted(out)
+
+    def _zk(self, cell):
+        if cell not in self.zk:
+            store = zkfake.ZkStore()
+            self.zk[cell] = (store, zkfake.ZkFakeClient(store))
+        return self.zk[cell]
+
+    def _docs(self):
+        """The /allocations document of every cell that has one, parsed from
+        the raw node bytes (json, not zkutils)."""
+        import json
+        docs = []
+        for cell in sorted(self.zk):
+            store, _zk = self.zk[cell]
+            node = store.dump('/allocations').get('/allocations')
+            if node is None:
+                continue
+            entries = []
+            for a in json.loads(node[0].decode()):
+                ident = a.get('_id', '')
+                entries.append(dict(
+                    name=a.get('name', ''),
+                    idcell=ident.rsplit('/', 1)[-1],
+                    idok=(ident == '%s/%s' % (a.get('name'), a.get('cell'))),
+                    part=a.get('partition', ''),
+                    traits=sorted(a.get('traits', [])),
+                    cpu=unspell(a.get('cpu', '')), memory=unspell(a.get('memory', '')),
+                    disk=unspell(a.get('disk', '')),
+                    rank=a['rank'] if isinstance(a.get('rank'), int) else -1,
+                    adj=[a['rank_adjustment']] if 'rank_adjustment' in a else [],
+                    maxu=[repr(float(a['max_utilization']))] if 'max_utilization' in a else [],
+                    asg=sorted([x.get('pattern', ''), x.get('priority', -1)]
+                               for x in a.get('assignments', []))))
+            docs.append(dict(cell=cell, entries=entries))
+        return docs
+
+    def _events(self):
+        out = []
+        for cell in sorted(self.zk):
+            store, _zk = self.zk[cell]
+            n = sum(1 for p in store.dump('/events')
+                    if p.rsplit('/', 1)[-1].startswith('000-allocations-'))
+            out.append(dict(cell=cell, n=n))
+        return out
+
+    def sync(self, cell):
+        """cellsync.sync_allocations() of `cell` (its own ZooKeeper)."""
+        _store, zk = self._zk(cell)
+        adm = context.AdminContext
+        try:
+            with mock.patch.object(adm, 'cell_allocation', lambda _self: self.cell_alloc), \
+                    mock.patch.object(context.ZkContext, 'conn',
+                                      mock.PropertyMock(return_value=zk)), \
+                    mock.patch.object(context.Context, 'cell',
+                                      mock.PropertyMock(return_value=cell)):
+                cellsync.sync_allocations()
+            return 'ok', ''
+        except tlc.MachineryError:
+            raise
+        except Exception as err:  # pylint: disable=broad-except
+            return 'exc', type(err).__name__
+
+    def assign(self, ev, ident, a):
+        """assignment.update / assignment.delete of one pattern."""
+        alloc, cell = ident
+        rsrc_id = '%s/%s/%s' % (alloc, cell, a['pattern'])
+        adm = context.AdminContext
+        with mock.patch.object(adm, 'cell_allocation', lambda _self: self.cell_alloc):
+            try:
+                if ev == 'Assign':
+                    api().assignment.update(rsrc_id, {'priority': int(a['priority'])})
+                else:
+                    api().assignment.delete(rsrc_id)
+                return 'ok', ''
+            except tlc.MachineryError:
+                raise
+            except jsonschema.exceptions.ValidationError as err:
+                raise HarnessBug('generator produced a schema-invalid assignment: %s' % err.message)
+            except Exception as err:  # pylint: disable=broad-except
+                return 'exc', type(err).__name__
 
     def request(self, ev, ident, r):
         """Issue one API call.  Returns (outcome, exception type name)."""
+        if ev == 'Sync':
+            return self.sync(ident[1])
+        if ev in ('Assign', 'Unassign'):
+            return self.assign(ev, ident, r)
         alloc, cell = ident
         rsrc_id = '%s/%s' % (alloc, cell)
         rsv = api().reservation
@@ -277,6 +393,12 @@ class World:
                     # sorted orders so that limited and unlimited traits meet both ways
                     flip = (int(r['cpu'][0]) + int(r['memory'][0]) + len(alloc)) % 2 == 1
                     rsrc['traits'] = sorted(r['traits'], reverse=flip)
+                if r.get('rank') is not None:
+                    rsrc['rank'] = int(r['rank'])
+                if r.get('adj') is not None:
+                    rsrc['rank_adjustment'] = int(r['adj'])
+                if r.get('maxu') is not None:
+                    rsrc['max_utilization'] = float(r['maxu'])
                 if ev == 'Create':
                     rsv.create(rsrc_id, rsrc)
                 elif ev == 'Update':
@@ -294,10 +416,18 @@ class World:
                 return 'exc', type(err).__name__
 
 
+def _opt(v):
+    return [] if v is None else [v]
+
+
 def norm_request(r):
+    if 'pattern' in r:      # Assign / Unassign
+        return dict(pattern=r['pattern'], priority=int(r.get('priority', 0)))
     return dict(part=r['part'], tg=bool(r['tg']), traits=sorted(r['traits']),
                 cpu=[int(r['cpu'][0]), r['cpu'][1]], memory=[int(r['memory'][0]), r['memory'][1]],
-                disk=[int(r['disk'][0]), r['disk'][1]])
+                disk=[int(r['disk'][0]), r['disk'][1]],
+                rank=_opt(r.get('rank')), adj=_opt(r.get('adj')),
+                maxu=_opt(repr(float(r['maxu'])) if r.get('maxu') is not None else None))
 
 
 def replay(table, history):
